@@ -1,5 +1,6 @@
 import Emerge.Driver.Scan
 import Emerge.Driver.Parse
+import Emerge.Driver.Spec
 /-
   Model driver: one case per input line, one result per output line (same protocol as the Go harness).
 -/
@@ -16,6 +17,8 @@ def dispatch (cmd : String) (fields : List String) : String :=
   | "parse" => cmdParse fields
   | "action" => cmdAction fields
   | "goto" => cmdGoto fields
+  | "spec" => cmdSpec fields
+  | "specfixed" => cmdSpecFixed fields
   | _ => "UNKNOWN-COMMAND"
 
 partial def loop (cmd : String) (h : IO.FS.Stream) (out : IO.FS.Stream) : IO Unit := do
